@@ -603,7 +603,7 @@ def run(ctx):
     rng = ctx.rng
     nprog = 12 if ctx.quick else 120
     scheds_per = 9 if ctx.quick else 40
-    budget = 80 if ctx.quick else 3600
+    budget = 80 if ctx.quick else 1200
     t_start = time.time()
     base = os.path.join(ctx.scratch, "c39")
     os.makedirs(base, exist_ok=True)
